@@ -31,6 +31,11 @@
    (whose items are redirected to a root queue) and a global queue let any number.  On a global
    (root) target a failed unlock retries in place, otherwise it re-enqueues.
 
+   Memory orders the code uses (compared informationally by SourceTrace.tla): every access to
+   ds_pending_data is relaxed; dq_state: queue_wakeup release, drain_try_lock acquire, drain_try_unlock
+   release (its DIRTY xor: acquire), invoke_finish release, suspend relaxed, resume release, the
+   activating RMW and the role update relaxed; loop-entry loads and DISPATCH_QUEUE_IS_SUSPENDED relaxed.
+
    Not modelled (other properties): cancellation (C16: the DSF_CANCELED / DQF_RELEASED tests of
    merge_data, wakeup and invoke2 read flags that never change here), the +2 reference ledger
    (C17), QoS overrides (the max-qos bits follow DQState!MergeQos only).
